@@ -4,10 +4,11 @@ package vc
 
 import (
 	"fmt"
-	"sort"
 	"go/token"
 	"go/types"
+	"sort"
 	"strconv"
+	"strings"
 
 	"golang.org/x/tools/go/ssa"
 )
@@ -812,13 +813,21 @@ func (fr *frame) pseudoAt(key string, site ssa.Instruction, args []TV, st *State
 		}
 		blk := site.Block()
 		env.local = func(name string) (TV, bool) { return fr.lookupLocalBefore(name, blk, site, st) }
+		prevErr := s.Err
 		g := s.evalBool(env, at.C.E)
+		src := at.C.Src
+		if prevErr == nil && s.Err != nil && strings.Contains(s.Err.Error(), "unknown identifier") {
+			// the assertion names a variable that has no value yet at this write
+			src = src + "   [" + s.Err.Error() + ": not assigned before this write]"
+			s.Err = nil
+			g = "false"
+		}
 		top := fr
 		for top.parent != nil {
 			top = top.parent
 		}
 		top.atCount[at.C.Label]++
-		s.addObl(&Obligation{Name: fmt.Sprintf("%s#at:%s:%s@%d", shortKey(FuncKey(s.Top)), at.Callee, at.C.Label, top.atCount[at.C.Label]), Props: fr.propsOf(at.C), Kind: "call-site-assert", Label: at.C.Label, Goal: fmt.Sprintf("(=> %s %s)", st.Guard, g), Src: at.C.Src})
+		s.addObl(&Obligation{Name: fmt.Sprintf("%s#at:%s:%s@%d", shortKey(FuncKey(s.Top)), at.Callee, at.C.Label, top.atCount[at.C.Label]), Props: fr.propsOf(at.C), Kind: "call-site-assert", Label: at.C.Label, Goal: fmt.Sprintf("(=> %s %s)", st.Guard, g), Src: src})
 		top.atHit[at.C.Label] = true
 	}
 }
